@@ -221,6 +221,13 @@ func SplitStatementToPieces(blob string) (pieces []string, err error) {
 				err = tokenizer.errs[0]
 			}
 			return
+		case invalid:
+			// The scanner does not consume a character it has no rule for (control
+			// characters, '[' and ']'): it relies on the parser stopping at the first
+			// invalid token. Skip the character here, otherwise this loop never
+			// terminates. Whether the piece is valid SQL is decided when it is parsed.
+			tokenizer.r.inc()
+			emptyStatement = false
 		default:
 			emptyStatement = false
 		}
